@@ -229,7 +229,7 @@ func (s *syncRun) inject(class string, h uint64, via string, rng *mrand.Rand) {
 		return
 	}
 	m := s.full.M
-	if class == "P1" || class == "P1parked" {
+	if class == "P1" || class == "P1parked" || class == "P1split" {
 		// unsigned transaction data over P2P (what a peer can put into the data sync store): the genuine
 		// metadata of height h with transactions of the adversary's choosing. P1parked: the genuine header
 		// of h is delivered first, so that it waits in the cache (with its placeholder, if the block is empty).
@@ -240,7 +240,20 @@ func (s *syncRun) inject(class string, h uint64, via string, rng *mrand.Rand) {
 			}
 		}
 		d := s.dataOf(h)
-		d.Txs = types.Txs{[]byte("forged-p2p-tx")}
+		if class == "P1split" {
+			// the genuine transactions cut at different boundaries (same concatenated bytes, different list)
+			if len(d.Txs) == 0 || len(d.Txs[0]) < 2 {
+				return
+			}
+			first := d.Txs[0]
+			cut := append(types.Txs{append([]byte(nil), first[:len(first)/2]...), append([]byte(nil), first[len(first)/2:]...)}, d.Txs[1:]...)
+			if len(d.Txs) >= 2 && rng.Intn(2) == 0 { // or two transactions glued into one
+				cut = append(types.Txs{append(append([]byte(nil), d.Txs[0]...), d.Txs[1]...)}, d.Txs[2:]...)
+			}
+			d.Txs = cut
+		} else {
+			d.Txs = types.Txs{[]byte("forged-p2p-tx")}
+		}
 		s.c.Tr.Emit("Inject", world.F{"node": "full", "class": class, "kind": "data", "h": int(h), "via": "p2pdata", "dah": 0})
 		m.VerifDataInCh() <- block.NewDataEvent{Data: d, DAHeight: s.daH}
 		synctest.Wait()
@@ -307,7 +320,7 @@ func (s *syncRun) inject(class string, h uint64, via string, rng *mrand.Rand) {
 	s.full.Obs("inject")
 }
 
-var advClasses = []string{"A1same", "A1alt", "A1time", "A3", "A3g", "A4", "A5", "A5own", "A6", "A7", "D1", "D1same", "D3", "D4", "P1", "P1parked", "A8adv", "A8uns", "A8gar"}
+var advClasses = []string{"A1same", "A1alt", "A1time", "A3", "A3g", "A4", "A5", "A5own", "A6", "A7", "D1", "D1same", "D3", "D4", "P1", "P1parked", "P1split", "A8adv", "A8uns", "A8gar"}
 
 // RunAdversary interleaves every adversarial class, at every position relative to the genuine
 // events of a chain, on every ingress, with genuine traffic on a full node.
